@@ -14,13 +14,16 @@ use crate::prng::Prng;
 pub enum SimLogpError {
     #[error("simulated recoverable logp error at evaluation {0}")]
     Recoverable(u64),
+    /// a recoverable error whose Display text is empty (a foreign exception raised without a message)
+    #[error("")]
+    RecoverableSilent(u64),
     #[error("simulated unrecoverable logp error at evaluation {0}")]
     Unrecoverable(u64),
 }
 
 impl LogpError for SimLogpError {
     fn is_recoverable(&self) -> bool {
-        matches!(self, SimLogpError::Recoverable(_))
+        matches!(self, SimLogpError::Recoverable(_) | SimLogpError::RecoverableSilent(_))
     }
 }
 
@@ -380,7 +383,8 @@ impl CpuLogpFunc for SimDensity {
         if let Some(kind) = fault {
             log.faults_fired.push((index, kind));
             match kind {
-                FaultKind::RecoverableErr => ret_err = Some(SimLogpError::Recoverable(index)),
+                // (every third one without any message text)
+                FaultKind::RecoverableErr => ret_err = Some(if index % 3 == 0 { SimLogpError::RecoverableSilent(index) } else { SimLogpError::Recoverable(index) }),
                 FaultKind::UnrecoverableErr => {
                     if let Some(inst) = self.instance {
                         crate::sched::note_unrecoverable(format!("density_unrecoverable_err@{inst}:{index}"));
